@@ -54,6 +54,27 @@ func judgeC02(c C02Case) *Fail {
 			return f
 		}
 	}
+	// nothing depends on goroutine scheduling: the request decided while other requests (and a second copy of
+	// itself) are being decided at the same moment
+	var wg sync.WaitGroup
+	outs := make([]Outcome, 6)
+	start := make(chan struct{})
+	for i := range outs {
+		wg.Add(1)
+		go func(i int) { defer wg.Done(); <-start; outs[i] = decide(body) }(i)
+	}
+	for _, o := range c.Others {
+		wg.Add(1)
+		go func(o string) { defer wg.Done(); <-start; decide([]byte(o)) }(o)
+	}
+	close(start)
+	wg.Wait()
+	for _, o := range outs {
+		if f := sameOutcome(first, o); f != nil {
+			f.Rule = "concurrent-" + f.Rule
+			return f
+		}
+	}
 	v := viewReq(parseReqM(body))
 	if first.OK {
 		st.inc("C02:accepted")
